@@ -788,7 +788,7 @@ def add_soft_fork(code: int, name: str, op: Callable, aliases: list[str] = []) -
         return [f'{opname} d{val}']
 
     add_opcode(code, name, op, aliases)
-    add_opcode_parsing_handlers(name, compiler_handler, decompiler_handler)
+    add_opcode_parsing_handlers(name.upper(), compiler_handler, decompiler_handler)
 
 def make_timestamp_after_lock(ts: int, op_verify: bool = False) -> Script:
     """Makes a lock that enforces that the runtime timestamp is greater
